@@ -231,7 +231,7 @@ func main() {
 	run(r, []tun{{"tcp://a:1", ""}}, nil, true, []string{"gen0"})
 	n := 20_000
 	if r.Thorough() {
-		n = 400_000
+		n = 150_000
 	}
 	for i := 0; i < n; i++ {
 		gen()
